@@ -41,7 +41,7 @@ def _style():
     return st.fixed_dictionaries({
         "delim": st.sampled_from([":", "="]), "kpost": st.integers(0, 2), "vpre": st.integers(0, 3),
         "tok": st.integers(1, 3), "cont": st.booleans(), "comments": st.booleans(),
-        "inner": st.integers(0, 2)})
+        "inner": st.integers(0, 2), "numspell": st.booleans()})
 
 
 @st.composite
